@@ -22,10 +22,10 @@ add('C04', _P, 'Lean 4 theorem reject => all-zero buffer / accept => plaintext (
     'TJ.Props.C04: on rejection the plaintext region is all zero, on acceptance it holds the plaintext, for AEAD and SIV, every length and every permutation; TJ.Props.C03Gen ties the wipe loop of the regenerated tinyjambu_aead_check_tag to the model for all lengths and contents.' + _TIE, '', '5 C04')
 add('C05', _P, 'Lean 4 theorems on REGENERATED assembly programs (translator asm2lean.py; symbolic block execution by simp + bv_decide; loop induction) + generator byte-identity + selection table',
     'Per back end a regenerated theorem TJ.Gen.Asm.<program>.correct: for every machine state and every round count 1 <= r < 2^32 the call returns, the four state words become the '
-    'specification permutation of the old ones, no other memory word changes, callee-saved registers and stack are restored.  21 of 27 assembly programs are covered '
-    '(RV32I, RV32E, ARMv6, ARMv6-M, ARMv7-M, Xtensa windowed and call0, each x 128/192/256); RV64I and AVR5 are listed as not proved in the evidence.  The C back ends: TJ.Props.C05.c_backend_is_spec '
+    'specification permutation of the old ones, no other memory word changes, callee-saved registers and stack are restored.  24 of 27 assembly programs are covered '
+    '(RV32I, RV32E, ARMv6, ARMv6-M, ARMv7-M, Xtensa windowed and call0, each x 128/192/256; RV64I x 128/192/256 on its 32-bit projection, see lean/TJ/Asm/RV64.lean); AVR5 is listed as not proved in the evidence.  The C back ends: TJ.Props.C05.c_backend_is_spec '
     '(hand model tied by direct permutation calls).  Generated .S files are compared byte for byte with the bundled generators\' output; back-end selection is unique per target (decided by execution).',
-    'Partial: 6 of 27 assembly programs (RV64I, AVR5) have no theorem yet.  The ISA semantics (TJ.Asm.*) are this project\'s reading of the manuals, not validated by execution (no emulator in the sandbox). bv_decide axioms are enumerated in the evidence.', '5 C05')
+    'Partial: 3 of 27 assembly programs (AVR5) have no theorem yet; the three RV64I theorems are about the 32-bit projection of the programs (per-instruction projection lemmas proved, lifting assumed).  The ISA semantics (TJ.Asm.*) are this project\'s reading of the manuals, not validated by execution (no emulator in the sandbox). bv_decide axioms are enumerated in the evidence.', '5 C05')
 add('C06', _P, 'Lean 4 theorem (fault verdict of the regenerated source is independent of buffer contents) + exhaustive length window executed on the MiniC interpreter + guard pages, canaries, ASan/UBSan on the compiled code',
     'TJ.Props.C06: in the MiniC semantics of the regenerated C source every out-of-range, misaligned or uninitialised access, NULL dereference, over-wide shift and division by zero is a fault, and whether a call '
     'completes or faults (kind and position) is the same for ALL contents of the caller\'s buffers and state objects once lengths, pointers and alignments are fixed (safety_independent_of_contents, an instance of the '
